@@ -20,7 +20,10 @@ impl <T> Drop for HeapStorage<T> {
     fn drop(&mut self) {
         unsafe {
             #[cfg(feature = "vmem")]
-            libc::munmap(self.inner as _, 2 * self.len * size_of::<T>());
+            {
+                core::ptr::drop_in_place(core::ptr::slice_from_raw_parts_mut(self.inner, self.len));
+                libc::munmap(self.inner as _, 2 * self.len * size_of::<T>());
+            }
 
             #[cfg(not(feature = "vmem"))]
             let _ = Box::from_raw(core::ptr::slice_from_raw_parts_mut(self.inner, self.len));
@@ -32,10 +35,14 @@ impl<T> HeapStorage<T> {
     #[cfg(feature = "vmem")]
     fn new(value: Box<[UnsafeSyncCell<T>]>) -> Self {
         let r = vmem_helper::new(&value);
+        let len = value.len();
+
+        // The items now live in the mapping: release the box without dropping them.
+        drop(unsafe { core::mem::transmute::<Box<[UnsafeSyncCell<T>]>, Box<[core::mem::ManuallyDrop<UnsafeSyncCell<T>>]>>(value) });
 
         Self {
             inner: r,
-            len: value.len(),
+            len,
         }
     }
 
